@@ -88,6 +88,16 @@ enum Tgt {
 		#[serde(default)]
 		as_dir: u8,
 	},
+	/// `slashes` slashes, the absolute path of the root spelled as ordinary segments, then a climb
+	/// as in `Climb` (always aimed at a canary)
+	AbsClimb {
+		slashes: u8,
+		down: u8,
+		ups: u8,
+		file: u16,
+		dots: u8,
+		as_dir: u8,
+	},
 	Segs(Vec<Seg>, bool),
 }
 
@@ -147,6 +157,7 @@ fn tgt() -> impl Strategy<Value = Tgt> {
 		8 => (0u8..4, 1u8..5, prop::bool::weighted(0.7), any::<u16>(), prop_oneof![6 => Just(0u8), 4 => 1u8..DOTS.len() as u8], prop_oneof![4 => Just(0u8), 1 => Just(1u8), 1 => Just(2u8)], as_dir())
 			.prop_map(|(down, ups, outside, file, dots, sep, as_dir)| Tgt::Climb { down, ups, outside, file, dots, sep, as_dir }),
 		5 => (prop::bool::weighted(0.7), any::<u16>(), 2u8..5, 0u8..3, as_dir()).prop_map(|(outside, file, slashes, lead, as_dir)| Tgt::Abs { outside, file, slashes, lead, as_dir }),
+		3 => (2u8..5, 0u8..4, 1u8..5, any::<u16>(), prop_oneof![6 => Just(0u8), 2 => 1u8..DOTS.len() as u8], as_dir()).prop_map(|(slashes, down, ups, file, dots, as_dir)| Tgt::AbsClimb { slashes, down, ups, file, dots, as_dir }),
 		6 => (vec(seg(), 1..7), any::<bool>()).prop_map(|(s, t)| Tgt::Segs(s, t)),
 	]
 }
@@ -426,6 +437,10 @@ fn expand(w: &World, t: &Tgt) -> String {
 			};
 			format!("{lead}{}{}", "/".repeat((*slashes).max(1) as usize), file_or_dir(&k.abs[1..], *as_dir))
 		}
+		Tgt::AbsClimb { slashes, down, ups, file, dots, as_dir } => {
+			let climb = expand(w, &Tgt::Climb { down: *down, ups: *ups, outside: true, file: *file, dots: *dots, sep: 0, as_dir: *as_dir });
+			format!("{}{}{}", "/".repeat((*slashes).max(1) as usize), &w.root_abs[1..], climb)
+		}
 		Tgt::Segs(segs, trailing) => {
 			let mut out = String::new();
 			for s in segs {
@@ -582,6 +597,9 @@ fn oracle(case: &Case, obs: &mut Obs) -> Result<(), Fail> {
 		if must_404 {
 			n_outside += 1;
 		}
+		if let Tgt::AbsClimb { .. } = &r.tgt {
+			classes.insert("absolute-root-then-dotdot");
+		}
 		if let Tgt::Abs { outside, as_dir, .. } = &r.tgt {
 			classes.insert(match (*outside, as_dir % 3) {
 				(true, 0) => "absolute->canary",
@@ -666,6 +684,9 @@ fn fixed_cases() -> Vec<Case> {
 				}
 			}
 			for slashes in 2u8..5 {
+				for (down, ups) in [(0u8, 1u8), (1, 2), (0, 2)] {
+					requests.push(Req { tgt: Tgt::AbsClimb { slashes, down, ups, file, dots: 0, as_dir: (slashes + ups) % 3 }, pfx: 0, accept: 0 });
+				}
 				for as_dir in 0u8..3 {
 					requests.push(Req { tgt: Tgt::Abs { outside, file, slashes, lead: (slashes + as_dir) % 3, as_dir }, pfx: 0, accept: 0 });
 				}
@@ -687,7 +708,7 @@ fn main() {
 	let mut check = Check::from_args(
 		"C07",
 		"exploration",
-		"case = one `versatiles serve --static` process: generated tree (2-11 files over 5 directories, .br/.gz variants, index.html) served as folder or as tar (.tar/.tar.gz/.tar.br, with/without ./ and directory members), optional URL prefix in 4 syntaxes, best/fast mode, inside a sandbox with canary files above and beside the root (mirrors with the same names, sibling `<root>x`); 1-299 raw request targets per case: direct paths, climbs (`down` dirs, 1-4 `..` in 10 spellings, 3 separators) aimed at a known inside/canary file, absolute paths behind 2-4 slashes (of a file, or of the directory holding it — every canary directory has an index.html — with and without trailing slash), free segment sequences over {names, ., .., empty, encoded dots, glued %2f, 255-3000 byte segments, odd bytes}, with / without / wrong prefix, 6 Accept-Encoding headers; oracle: complete HTTP response; 200 => body decoded per Content-Encoding is the content of a file inside the root; target resolving outside (file-system semantics from the root after literal prefix strip) => 404; non-trivial request = contains `..` (or an encoded spelling) and resolves to an existing inside or canary file; distinct = distinct cases containing such a request",
+		"case = one `versatiles serve --static` process: generated tree (2-11 files over 5 directories, .br/.gz variants, index.html) served as folder or as tar (.tar/.tar.gz/.tar.br, with/without ./ and directory members), optional URL prefix in 4 syntaxes, best/fast mode, inside a sandbox with canary files above and beside the root (mirrors with the same names, sibling `<root>x`); 1-299 raw request targets per case: direct paths, climbs (`down` dirs, 1-4 `..` in 10 spellings, 3 separators) aimed at a known inside/canary file, absolute paths behind 2-4 slashes (of a file, or of the directory holding it — every canary directory has an index.html — with and without trailing slash), the root's own absolute path behind 2-4 slashes followed by a climb, free segment sequences over {names, ., .., empty, encoded dots, glued %2f, 255-3000 byte segments, odd bytes}, with / without / wrong prefix, 6 Accept-Encoding headers; oracle: complete HTTP response; 200 => body decoded per Content-Encoding is the content of a file inside the root; target resolving outside (file-system semantics from the root after literal prefix strip) => 404; non-trivial request = contains `..` (or an encoded spelling) and resolves to an existing inside or canary file; distinct = distinct cases containing such a request",
 	);
 	check.assume("percent-encoded segments are not decoded by the server (http::Uri::path is used verbatim): `%2e%2e` is a file name; only the leak clause applies to such targets");
 	check.assume("a target containing bytes that no URI may contain may be answered 400 by the HTTP layer (hyper) before the static handler runs; accepted in place of 404");
